@@ -396,6 +396,9 @@ pub struct Spec {
     /// the scrutinee is held in a variable; every arm of the match on it matches it again
     /// (1: directly; 2: inside both arms of a match on a variable of another enum type)
     pub nested: u8,
+    /// bit k set: arm k does nothing (no print, no binder shown); when non-zero the match stands in
+    /// statement position (its value is dropped) and is followed by a print
+    pub silent: u32,
 }
 
 pub fn build(spec: &Spec, depth: u32) -> Program {
@@ -417,6 +420,9 @@ pub fn build(spec: &Spec, depth: u32) -> Program {
         let mut stmts = vec![st(println(add(s("arm"), i2s(int(idx as i128)))))];
         for (b, bt) in binders {
             stmts.push(st(println(add(s("bind "), render(v(b), &bt)))));
+        }
+        if idx < 32 && spec.silent & (1 << idx) != 0 {
+            stmts.clear();
         }
         let tail = if spec.int_result { Some(int(idx as i128 + 10)) } else { None };
         (pi, block(stmts, tail))
@@ -509,6 +515,8 @@ pub fn build(spec: &Spec, depth: u32) -> Program {
             } else {
                 block(vec![let_(held, call("scr", vec![v(arg)])), st(E::Match(Box::new(v(held)), arms)), st(E::Match(Box::new(v(held)), arms2))], None)
             }
+        } else if spec.silent != 0 {
+            block(vec![st(E::Match(Box::new(call("scr", vec![v(arg)])), arms)), st(println(s("after-match")))], None)
         } else {
             E::Match(Box::new(call("scr", vec![v(arg)])), arms)
         }
@@ -621,7 +629,7 @@ fn specs(tier: Tier) -> Vec<Spec> {
         let np = patterns(&pt, depth_for(ty)).len();
         // destructuring let: every pattern
         for r in 0..np {
-            out.push(Spec { ty: ty.into(), rows: vec![r], catch_all: false, int_result: false, as_let: true, only_value: None, twice: false, nested: 0 });
+            out.push(Spec { ty: ty.into(), rows: vec![r], catch_all: false, int_result: false, as_let: true, only_value: None, twice: false, nested: 0, silent: 0 });
         }
         // rows: quick <= 3 for types with <= 12 patterns, else 2; thorough <= 4 / <= 3 (<= 30 patterns) / 2
         let maxr = match (tier == Tier::Quick, np) {
@@ -644,12 +652,25 @@ fn specs(tier: Tier) -> Vec<Spec> {
                         if rcount == 4 && (int_result || (np > 7 && !catch_all)) {
                             continue;
                         }
-                        out.push(Spec { ty: ty.into(), rows: idx.clone(), catch_all, int_result, as_let: false, only_value: None, twice: false, nested: 0 });
+                        out.push(Spec { ty: ty.into(), rows: idx.clone(), catch_all, int_result, as_let: false, only_value: None, twice: false, nested: 0, silent: 0 });
+                        // arms that do nothing, the match in statement position: each single arm, and all but the last
+                        // (quick: one row + catch-all for every type, two rows for types with <= 7 patterns)
+                        let arms = rcount + catch_all as usize;
+                        if !int_result && arms >= 2 && rcount <= 2 && (tier == Tier::Thorough && np <= 30 || rcount == 1 || np <= 7) {
+                            let mut masks: Vec<u32> = (0..arms).map(|k| 1u32 << k).collect();
+                            masks.push((1u32 << (arms - 1)) - 1);
+                            masks.push((1u32 << arms) - 1);
+                            masks.sort();
+                            masks.dedup();
+                            for m in masks {
+                                out.push(Spec { ty: ty.into(), rows: idx.clone(), catch_all, int_result, as_let: false, only_value: None, twice: false, nested: 0, silent: m });
+                            }
+                        }
                         if rcount <= 2 && np <= 30 && !(tier == Tier::Quick && rcount == 2 && np > 12) {
-                            out.push(Spec { ty: ty.into(), rows: idx.clone(), catch_all, int_result, as_let: false, only_value: None, twice: true, nested: 0 });
+                            out.push(Spec { ty: ty.into(), rows: idx.clone(), catch_all, int_result, as_let: false, only_value: None, twice: true, nested: 0, silent: 0 });
                             if rcount <= 2 && np <= 14 {
-                                out.push(Spec { ty: ty.into(), rows: idx.clone(), catch_all, int_result, as_let: false, only_value: None, twice: false, nested: 1 });
-                                out.push(Spec { ty: ty.into(), rows: idx.clone(), catch_all, int_result, as_let: false, only_value: None, twice: false, nested: 2 });
+                                out.push(Spec { ty: ty.into(), rows: idx.clone(), catch_all, int_result, as_let: false, only_value: None, twice: false, nested: 1, silent: 0 });
+                                out.push(Spec { ty: ty.into(), rows: idx.clone(), catch_all, int_result, as_let: false, only_value: None, twice: false, nested: 2, silent: 0 });
                             }
                         }
                     }
@@ -687,7 +708,7 @@ fn specs(tier: Tier) -> Vec<Spec> {
             let n = sel.len();
             for code in 0..n.pow(4) {
                 let rows = vec![sel[code / (n * n * n)], sel[(code / (n * n)) % n], sel[(code / n) % n], sel[code % n]];
-                out.push(Spec { ty: ty.into(), rows, catch_all: true, int_result: false, as_let: false, only_value: None, twice: false, nested: 0 });
+                out.push(Spec { ty: ty.into(), rows, catch_all: true, int_result: false, as_let: false, only_value: None, twice: false, nested: 0, silent: 0 });
             }
         }
     }
@@ -711,7 +732,7 @@ fn specs(tier: Tier) -> Vec<Spec> {
             if strs < 3 {
                 continue;
             }
-            out.push(Spec { ty: ty.into(), rows, catch_all: true, int_result: false, as_let: false, only_value: None, twice: false, nested: 0 });
+            out.push(Spec { ty: ty.into(), rows, catch_all: true, int_result: false, as_let: false, only_value: None, twice: false, nested: 0, silent: 0 });
         }
     }
     out
@@ -725,7 +746,7 @@ impl Family for Patterns {
         &["C06", "C01", "C02", "C04"]
     }
     fn rule(&self) -> &'static str {
-        "scrutinee types {bool,int32,uint8,string,(bool,bool),(bool,int32),E,Opt[bool],S,(E2,E2),(int32,int32),(string,int32),(int32,string),(int32,int32,int32),unit,(E2,unit),(unit,E2),(bool,unit)}; all patterns (wildcard, variable, 2 literals, constructor/tuple/struct with sub-patterns; depth 2 for S, (E2,E2), (E2,unit) and (unit,E2); struct patterns with the fields in declaration order and in the other order; columns of all-literal-typed tuples use {_, lit0, lit1}); all matrices of <= 3 rows for types with <= 12 patterns, else <= 2 rows, plus the 4-row matrices of (int32,int32) over the 8 tuple patterns with a literal, with a catch-all (quick) / <= 4 rows for <= 12 patterns (unit result; tuple types with a catch-all only), <= 3 rows for <= 30 patterns, else 2 (thorough), with and without a trailing catch-all, results unit and int32; every destructuring let; matrices of <= 2 rows also with the scrutinee held in a variable that is matched twice, one match after the other and (types with <= 14 patterns) the second match inside every arm of the first, directly and inside both arms of a match on a variable of another enum type; the 4-row matrices with a catch-all of (string,int32) and (int32,string) over a three-literal string alphabet in which at least three rows name a string literal; each matrix applied to every value of the type (one program per value when some value matches no row); the scrutinee is an effect probe; each arm prints its index and every variable it binds. non-trivial = matrices where a row other than the first is selected for some value, or some value matches no row; distinct = distinct source text"
+        "scrutinee types {bool,int32,uint8,string,(bool,bool),(bool,int32),E,Opt[bool],S,(E2,E2),(int32,int32),(string,int32),(int32,string),(int32,int32,int32),unit,(E2,unit),(unit,E2),(bool,unit)}; all patterns (wildcard, variable, 2 literals, constructor/tuple/struct with sub-patterns; depth 2 for S, (E2,E2), (E2,unit) and (unit,E2); struct patterns with the fields in declaration order and in the other order; columns of all-literal-typed tuples use {_, lit0, lit1}); all matrices of <= 3 rows for types with <= 12 patterns, else <= 2 rows, plus the 4-row matrices of (int32,int32) over the 8 tuple patterns with a literal, with a catch-all (quick) / <= 4 rows for <= 12 patterns (unit result; tuple types with a catch-all only), <= 3 rows for <= 30 patterns, else 2 (thorough), with and without a trailing catch-all, results unit and int32; every destructuring let; matrices of <= 2 rows also with the scrutinee held in a variable that is matched twice, one match after the other and (types with <= 14 patterns) the second match inside every arm of the first, directly and inside both arms of a match on a variable of another enum type; the 4-row matrices with a catch-all of (string,int32) and (int32,string) over a three-literal string alphabet in which at least three rows name a string literal; each matrix applied to every value of the type (one program per value when some value matches no row); the scrutinee is an effect probe; each arm prints its index and every variable it binds; matrices of one row + catch-all (every type) and of two rows (types with <= 7 patterns; thorough: <= 30) also with the match in statement position and arms that do nothing: each single arm, all but the last, all. non-trivial = matrices where a row other than the first is selected for some value, or some value matches no row; distinct = distinct source text"
     }
     fn cases(&self, tier: Tier) -> Box<dyn Iterator<Item = Value> + '_> {
         let n = specs(tier).len();
@@ -779,12 +800,12 @@ impl Family for Patterns {
                 if spec.int_result { "int32" } else { "unit" },
                 if spec.as_let { "let" } else { "match" },
                 lit,
-                if spec.nested == 2 { ";nested-under-other-match" } else if spec.nested == 1 { ";nested" } else if spec.twice { ";twice" } else { "" }
+                if spec.silent != 0 { ";silent-arms" } else if spec.nested == 2 { ";nested-under-other-match" } else if spec.nested == 1 { ";nested" } else if spec.twice { ";twice" } else { "" }
             );
             for var in variants {
                 count += 1;
                 let prog = build(&var, depth);
-                let subcase = json!({"spec_index": lo + si, "ty": var.ty, "rows": var.rows, "catch_all": var.catch_all, "int_result": var.int_result, "as_let": var.as_let, "only_value": var.only_value, "twice": var.twice, "nested": var.nested});
+                let subcase = json!({"spec_index": lo + si, "ty": var.ty, "rows": var.rows, "catch_all": var.catch_all, "int_result": var.int_result, "as_let": var.as_let, "only_value": var.only_value, "twice": var.twice, "nested": var.nested, "silent": var.silent});
                 let opts = DiffOpts {
                     props_sem: &["C06", "C01"],
                     props_reject: &["C06"],
